@@ -176,7 +176,15 @@ def check(run):
     for name, detach in (('sim::nat::incoming_packet', None), ('sim::aux::sink_forwarder::incoming_packet', 'm_dst')):
         f = fx.fn1(name)
         run.touch(f)
-        fw = [c for c in f.calls() if q.callee_name(c) == 'sim::forward_packet' or (c.get('callee') or '').endswith('sink::incoming_packet')]
+        fw_all = [c for c in f.calls() if q.callee_name(c) == 'sim::forward_packet' or (c.get('callee') or '').endswith('sink::incoming_packet')]
+        # the packet that came in is what has to be passed on; a packet the hop builds itself (the refusal a detached
+        # forwarder answers a SYN with) is judged by hop-emits below
+        def _of_param(c):
+            r_ = q.access_root(q.strip_casts(c['args'][-1])) if c.get('args') else None
+            while is_node(r_) and r_['k'] == 'call' and (q.callee_name(r_) or '').endswith('move') and r_.get('args'):
+                r_ = q.access_root(q.strip_casts(r_['args'][0]))
+            return is_node(r_) and r_['k'] == 'ref' and r_.get('dk') == 'param'
+        fw = [c for c in fw_all if _of_param(c)]
         once = len(fw) == 1 and not (f.cfg.node_block(fw[0]) in f.cfg.reach_from(f.cfg.node_block(fw[0])))
         if detach:
             # while attached (m_dst non-null) every path forwards; branches on m_dst are followed along that edge only
@@ -196,6 +204,14 @@ def check(run):
             if not a.field.startswith(P + '::') or not a.is_write:
                 continue
             if a.kind == 'move' and a.field != P + '::drop_fun':
+                continue
+            root_ = q.access_root(a.node)
+            if is_node(root_) and root_['k'] == 'ref' and root_.get('dk') == 'local' and 'packet' in f.ty(root_.get('t', -1)) if is_node(root_) and 't' in root_ else False:
+                # a packet built by the hop itself: only a DETACHED forwarder may answer (it refuses a SYN whose acceptor is gone)
+                g_ = [(q.render(f, x_), p_) for x_, p_ in q.guards_at(f, a.site if is_node(a.site) else a.node)]
+                okd = f.norm == 'sim::aux::sink_forwarder::incoming_packet' and any((t_ in ('(m_dst == nullptr)', '(nullptr == m_dst)') and p_) or (t_ in ('m_dst', '(m_dst != nullptr)') and not p_) for t_, p_ in g_)
+                run.check(okd, 'R2', 'hop-emits', '%s builds %s.%s' % (f.norm, q.render(f, root_), a.field.split('::')[-1]), f.loc(a.node),
+                          'hop %s builds a packet of its own outside the detached case of the forwarder: a hop neither creates nor answers traffic' % f.norm, 'only the detached forwarder answers (refusing a SYN)')
                 continue
             nw += 1
             run.check((f.norm, a.field) in ALLOWED, 'R2', 'hop-writes', '%s writes %s' % (f.norm, a.field.split('::')[-1]), f.loc(a.node),
